@@ -1062,7 +1062,17 @@ def run_moving_fixed(case, spec, header, hr, descs, doms, members, act_members, 
                                  "bounds": [[frac_str(float(a)), frac_str(float(b))] for a, b in bounds]}))
         case.count("moved-fixed:" + ("none" if v is None else "falsy" if not v else "value"))
         huge = descs[n]["k"] in ("lograndint", "qlograndint") and descs[n]["hi"] >= 2 ** 40
-        # sampled configurations carry the current value and encode inside the current box
+        # sampled configurations carry the current value and encode inside the current box (also those drawn several at a time)
+        if v is not None:
+            try:
+                many = hr.random_configs(rs, 3)
+            except Exception:  # noqa (degenerate domains: reported by the domain-level checks)
+                many = []
+            for cfg in many:
+                if not same_value(descs[n], doms[n], cfg[n], v):
+                    case.finding("c07:moved-fixed-not-sampled:" + kind_tag(descs[n]),
+                                 f"value_for_last_pos := {v!r} on an existing ranges object: random_configs gives {n}={cfg[n]!r}", {"domain": descs[n]})
+                    break
         for _ in range(3):
             try:
                 cfg = hr.random_config(rs)
